@@ -51,14 +51,24 @@ META = {
 # --------------------------------------------------------------------------- types
 CONC_SRC = {'int': 'int', 'str': 'str', 'float': 'float', 'bool': 'bool', 'bytes': 'bytes', 'tuple': 'tuple',
             'frozenset': 'frozenset', 'list': 'list', 'dict': 'dict', 'set': 'set',
-            'datetime': 'datetime.datetime', 'any': 'Any'}
+            'datetime': 'datetime.datetime', 'any': 'Any', 'orddict': 'collections.OrderedDict', 'defdict': 'collections.defaultdict',
+            'counter': 'collections.Counter', 'mylist': 'MyList'}
 CONC_COQ = {'int': 'CInt', 'str': 'CStr', 'float': 'CFloat', 'bool': 'CBool', 'bytes': 'CBytes', 'tuple': 'CTuple',
-            'frozenset': 'CFrozenset', 'list': 'CList', 'dict': 'CDict', 'set': 'CSet', 'datetime': 'CNoZero', 'any': 'CNoZero'}
+            'frozenset': 'CFrozenset', 'list': 'CList', 'dict': 'CDict', 'set': 'CSet', 'datetime': 'CNoZero', 'any': 'CNoZero',
+            'orddict': 'COrdDict', 'defdict': 'CDefDict', 'counter': 'CCounter', 'mylist': 'CMyList'}
 GENS = [('List[int]', 'list'), ('list[str]', 'list'), ('Dict[str, int]', 'dict'), ('dict[str, int]', 'dict'),
         ('Set[bool]', 'set'), ('set[int]', 'set'), ('Tuple[int, ...]', 'tuple'), ('tuple[int, str]', 'tuple'),
         ('FrozenSet[int]', 'frozenset'), ('Sequence[int]', 'abstract'), ('Mapping[str, int]', 'abstract'),
         ('Iterable[str]', 'abstract'), ("List['Undefined_zz']", 'list'), ('Type[int]', 'abstract'),
-        ('Callable[[], int]', 'abstract')]
+        ('Callable[[], int]', 'abstract'),
+        # typing aliases of dict SUBCLASSES (these aliases CAN be instantiated)
+        ('OrderedDict[str, int]', 'orddict'), ('DefaultDict[str, int]', 'defdict'), ('Counter[str]', 'counter')]
+INST_ALIASES = {'OrderedDict[str, int]', 'DefaultDict[str, int]', 'Counter[str]'}
+
+
+def gen_inst(text):
+    """can the alias itself be called? list[int]() and typing.OrderedDict[str, int]() work, typing.List[int]() raises"""
+    return text[0].islower() or text in INST_ALIASES
 
 
 def v_src(vj):
@@ -144,7 +154,7 @@ def ty_coq(t):
     if k == 'gen':
         o = t[2]
         return '(TGen %s %s)' % ('GAbstract' if o == 'abstract' else 'GClassVar' if o == 'classvar' else '(GConc %s)' % CONC_COQ[o],
-                                  'true' if t[1][0].islower() else 'false')
+                                  'true' if gen_inst(t[1]) else 'false')
     if k == 'annot':
         return '(TAnnot %s %s)' % (ty_coq(t[1]), coq_list(['(EField %s)' % fd_coq(e[1]) if e[0] == 'field' else 'EOther' for e in t[2]]))
     if k == 'ref':
@@ -155,7 +165,8 @@ def ty_coq(t):
 # ---- independent reference: the default implied by an annotation (property text + docs) ----
 ZERO = {'int': 'I0', 'str': 'S', 'float': 'Zfloat', 'bool': 'B0', 'bytes': 'Zbytes', 'tuple': 'Ztuple',
         'frozenset': 'Zfrozenset', 'list': ('fresh', 'list'), 'dict': ('fresh', 'dict'), 'set': ('fresh', 'set'),
-        'datetime': 'N', 'any': 'N', 'abstract': 'N', 'classvar': 'N'}
+        'datetime': 'N', 'any': 'N', 'abstract': 'N', 'classvar': 'N',
+        'orddict': ('fresh', 'orddict'), 'defdict': ('fresh', 'defdict'), 'counter': ('fresh', 'counter'), 'mylist': ('fresh', 'mylist')}
 
 
 def v_tok(vj):
@@ -180,7 +191,7 @@ def zero_of_arg(t):
     if t[0] == 'conc':
         return ZERO[t[1]]
     if t[0] == 'gen':       # list[int]() works; the typing aliases (List[int], Dict[...]) cannot be instantiated
-        return ZERO[t[2]] if t[1][0].islower() else 'N'
+        return ZERO[t[2]] if gen_inst(t[1]) else 'N'
     if t[0] == 'annot':
         return zero_of_arg(t[1])
     return 'N'
@@ -316,6 +327,12 @@ from dataclasses import dataclass, field
 from typing import *
 from dataclass_wizard import property_wizard
 import collections, itertools
+
+
+class MyList(list):
+    pass
+
+
 LOG = []
 ORIG = {}
 CALLS = []
@@ -388,7 +405,8 @@ def gen_fd(r):
     return {}
 
 
-BASIC = [['conc', c] for c in ['int', 'str', 'float', 'bool', 'bytes', 'tuple', 'frozenset', 'list', 'dict', 'set', 'datetime', 'any']]
+BASIC = [['conc', c] for c in ['int', 'str', 'float', 'bool', 'bytes', 'tuple', 'frozenset', 'list', 'dict', 'set', 'datetime', 'any',
+                               'orddict', 'defdict', 'counter', 'mylist']]
 
 
 def gen_lit(r):
@@ -679,7 +697,8 @@ Definition show_Z (z : Z) : pstr := if (z <? 0)%Z then S "-" ++ show_N (Z.to_N (
 Definition conc_name (c : conc) : pstr :=
   match c with CInt => S "int" | CStr => S "str" | CFloat => S "float" | CBool => S "bool" | CBytes => S "bytes"
   | CTuple => S "tuple" | CFrozenset => S "frozenset" | CList => S "list" | CDict => S "dict" | CSet => S "set"
-  | CNoZero => S "nozero" end.
+  | CNoZero => S "nozero" | COrdDict => S "orddict" | CDefDict => S "defdict" | CCounter => S "counter"
+  | CMyList => S "mylist" end.
 Definition show_fac (f : factory) : pstr :=
   match f with FacConc c => conc_name c | FacUser t => S "user" ++ show_N t end.
 Definition show_value (v : value) : pstr :=
@@ -777,6 +796,9 @@ MATRIX_ANNS = (BASIC + [['gen', g[0], g[1]] for g in GENS] + [
     ['union', [['conc', 'int'], ['conc', 'str']], 'Union'], ['union', [['conc', 'str'], ['conc', 'int']], 'bar'],
     ['union', [['conc', 'int'], ['conc', 'str'], ['nonetype']], 'Union'],
     ['union', [['gen', 'List[int]', 'list'], ['conc', 'str']], 'Union'],
+    ['union', [['gen', 'list[int]', 'list'], ['conc', 'str']], 'Union'],
+    ['union', [['gen', 'DefaultDict[str, int]', 'defdict'], ['conc', 'str']], 'Union'],
+    ['union', [['conc', 'mylist'], ['conc', 'int']], 'Union'],
     ['union', [['conc', 'datetime'], ['conc', 'int']], 'Union'],
     ['union', [['ref', 'Undefined_1', None], ['conc', 'int']], 'Union'],
     ['union', [['lit', [['int', 1]]], ['conc', 'str']], 'Union'],
